@@ -23,6 +23,7 @@ def incrementing_shard_methods(F):
     shard = [f for f in F.all_fns("P") if f.self_ty and f.self_ty.startswith(SHARD) and f.kind == "assoc_fn"]
     ret_rec = [f for f in shard if ARC_RECORD in f.local_ty(0)]
     inc = set()
+    inc_cids = set()
     changed = True
     while changed:
         changed = False
@@ -31,10 +32,10 @@ def incrementing_shard_methods(F):
                 continue
             bodies = [f] + F.descendants(f)
             direct = any(g.calls_to(INC) for g in bodies)
-            via = any(t.term.callee and any(mir.short_path(t.term.callee) == mir.short_path(i) for i in inc)
-                      for g in bodies for t in g.calls())
+            via = any(t.term.callee_cid in inc_cids for g in bodies for t in g.calls())
             if direct or via:
                 inc.add(f.id)
+                inc_cids.add(f.cid)
                 changed = True
     return [F.P[i] for i in sorted(inc)]
 
@@ -50,7 +51,7 @@ def refs_paired(r, F):
     names = sorted(f.short.rsplit("::", 1)[-1] for f in incs)
     if not {"get_inner", "remove"} <= set(names):
         raise AnchorMissing("incrementing shard methods not recognised (found %s)" % names)
-    inc_shorts = {mir.short_path(f.id) for f in incs}
+    inc_cids = {f.cid for f in incs}
     n = 0
     for f in F.all_fns("P"):
         if f.crate.name != "foyer_memory":
@@ -62,7 +63,7 @@ def refs_paired(r, F):
             continue
         for b in f.calls():
             t = b.term
-            if not t.callee or mir.short_path(t.callee) not in inc_shorts:
+            if not t.callee or t.callee_cid not in inc_cids:
                 continue
             n += 1
             fl = flow.forward(F, f, [t.dest.local], sink=_entry_sink)
